@@ -103,7 +103,9 @@ def main():
     for p in parts:
         if a.only and a.only not in (p.get("harness"), p.get("name")):
             continue
-        cfg = p[tier]
+        cfg = dict(p[tier])
+        if os.environ.get("VV_BUDGET_CAP_S"):  # development aid: bounded dry runs of the thorough tier
+            cfg["budget_s"] = min(cfg.get("budget_s", 3600), int(os.environ["VV_BUDGET_CAP_S"]))
         left = P.get("budget", {}).get(tier, 100000)
         if p["engine"] == "rc":
             res = core.run_rc(prop, p["harness"], seed, cfg["cases"], cfg.get("procs", 1), work,
